@@ -657,6 +657,228 @@ example :
       some (none, some .wrongPassphrase) := by
   decide
 
+/-! ### a watching-only manager is always locked; the current passphrase as a function of the history -/
+
+theorem step_mem_cases (s : State) (op : Op) (P : Mem → Prop)
+    (hopen : ∀ d, P (openMem d)) (hold : ∀ m, s.mem = some m → P m)
+    (hexec : ∀ (s' : State) m, s'.mem = some m → s.mem = some m → s'.cfg = s.cfg → s'.disk = s.disk →
+      ∀ m', (exec s' m op).1.mem = some m' → P m')
+    (hpend : ∀ cfg m p, P m → P (runPend cfg m p)) :
+    ∀ m', (step s op).1.mem = some m' → P m' := by
+  have hfold : ∀ cfg (ps : List Pend) m, P m → P (ps.foldl (runPend cfg) m) := by
+    intro cfg ps
+    induction ps with
+    | nil => intro m h; exact h
+    | cons p ps ih => intro m h; simp only [List.foldl]; exact ih _ (hpend cfg m p h)
+  have hcommit : ∀ s' : State, (∀ m, s'.mem = some m → P m) → ∀ m, (commitTx s').mem = some m → P m := by
+    intro s' h m hm
+    simp only [commitTx] at hm
+    cases hs : s'.mem with
+    | none => rw [hs] at hm; cases hm
+    | some m0 => rw [hs] at hm; simp only [Option.map] at hm; cases hm; exact hfold _ _ _ (h m0 hs)
+  have generic : ∀ m, s.mem = some m →
+      ∀ m', (if s.snap.isSome || !op.writes then exec s m op
+        else
+          let r := exec { s with snap := some s.disk, pend := [] } m op
+          if isErr r.2 then (rollbackTx r.1, r.2) else (commitTx r.1, r.2)).1.mem = some m' → P m' := by
+    intro m hs
+    split
+    · intro m' hm'; exact hexec s m hs hs rfl rfl m' hm'
+    · dsimp only
+      have hex : ∀ m', (exec { s with snap := some s.disk, pend := [] } m op).1.mem = some m' → P m' :=
+        fun m' hm' => hexec { s with snap := some s.disk, pend := [] } m hs hs rfl rfl m' hm'
+      split
+      · intro m' hm'; exact hex m' (by simpa [rollbackTx] using hm')
+      · exact hcommit _ hex
+  unfold step
+  cases op
+  case create =>
+    simp only []; split
+    · exact hold
+    · split
+      · exact hold
+      · intro m hm; simp only at hm; cases hm; exact hopen _
+  case reopen =>
+    simp only []; split
+    · exact hold
+    · split
+      · exact hold
+      · split
+        · intro m hm; cases hm
+        · intro m hm; simp only at hm; cases hm; exact hopen _
+  case begin => simp only []; split <;> exact hold
+  case commit => simp only []; split; exact hold; exact hcommit _ hold
+  case rollback => simp only []; split; exact hold; exact hold
+  all_goals
+    simp only []
+    split
+    · exact hold
+    · rename_i m hs; exact generic m hs
+
+/-- a watching-only manager is locked -/
+def WOLocked (m : Mem) : Prop := m.watchOnly = true → m.locked = true
+
+theorem woLocked_of_scal {m m' : Mem} (h : Scal m' = Scal m) (hp : WOLocked m) : WOLocked m' := by
+  unfold WOLocked at *
+  have h1 : m'.locked = m.locked := congrArg (·.1) h
+  have h2 : m'.watchOnly = m.watchOnly := congrArg (·.2.1) h
+  rw [h1, h2]; exact hp
+
+theorem woLocked_locked {m : Mem} (h : m.locked = true) : WOLocked m := fun _ => h
+
+theorem woLocked_unlock (cfg : Cfg) (d : Disk) (m : Mem) (p : Nat) (h : WOLocked m) : WOLocked (unlock cfg d m p).1 := by
+  unfold unlock
+  split
+  · exact h
+  · rename_i hw
+    have hw' : m.watchOnly = false := by simpa using hw
+    split
+    · dsimp only; split
+      · intro hc; rw [hw'] at hc; cases hc
+      · exact woLocked_locked rfl
+    · split
+      · exact woLocked_locked rfl
+      · dsimp only
+        have key := scal_unlockScopes cfg d (List.range nScopes) (unlockStart cfg m)
+        split
+        · rename_i m2 heq; rw [heq] at key
+          exact woLocked_of_scal (m := unlockStart cfg m) key (fun hc => by rw [show (unlockStart cfg m).watchOnly = m.watchOnly from rfl, hw'] at hc; cases hc)
+        · exact woLocked_locked rfl
+        · rename_i m2 heq; rw [heq] at key
+          have h2 : m2.watchOnly = m.watchOnly := congrArg (·.2.1) key
+          intro hc; rw [show ({ m2 with locked := false, hashed := some (p, m2.saltZero), saltZero := saltAfter cfg m2 p } : Mem).watchOnly = m2.watchOnly from rfl, h2, hw'] at hc; cases hc
+
+theorem woLocked_exec (s : State) (m : Mem) (hs : s.mem = some m) (op : Op) (h : WOLocked m)
+    (m' : Mem) (hm : (exec s m op).1.mem = some m') : WOLocked m' := by
+  by_cases hp : op.plain = true
+  · exact woLocked_of_scal (scal_exec s m hs op hp m' hm) h
+  · cases op <;> simp only [Op.plain] at hp <;> simp only [exec] at hm
+    all_goals try (exact absurd trivial hp)
+    case create => rw [hs] at hm; cases hm; exact h
+    case reopen => rw [hs] at hm; cases hm; exact h
+    case begin => rw [hs] at hm; cases hm; exact h
+    case commit => rw [hs] at hm; cases hm; exact h
+    case rollback => rw [hs] at hm; cases hm; exact h
+    case unlock p => cases hm; exact woLocked_unlock _ _ _ _ h
+    case lock =>
+      cases hm
+      unfold lockOp; split
+      · exact h
+      · split
+        · exact h
+        · exact woLocked_locked rfl
+    case changePass o n pr =>
+      cases hm
+      unfold changePass
+      repeat' split
+      all_goals first | exact h | (intro hc; exact h hc)
+    case convertWO =>
+      cases hm
+      unfold convertWO
+      split
+      · exact h
+      · apply woLocked_locked
+        dsimp only
+        by_cases hl : m.locked = true
+        · simp [hl]
+        · simp [hl, lockMem]
+
+theorem woLocked_run (ops : List Op) (s : State) (h : ∀ m, s.mem = some m → WOLocked m) :
+    ∀ m, (run s ops).mem = some m → WOLocked m := by
+  induction ops generalizing s with
+  | nil => exact h
+  | cons op ops ih =>
+    simp only [run]
+    apply ih
+    exact step_mem_cases s op WOLocked (fun d => woLocked_locked rfl) h
+      (fun s' m hs' hs _ _ m' hm' => woLocked_exec s' m hs' op (h m hs) m' hm')
+      (fun cfg m p hp => woLocked_of_scal (scal_runPend cfg m p) hp)
+
+/-- after EVERY history (any configuration): a watching-only manager is locked -/
+theorem C05_watchOnly_locked (cfg : Cfg) (ops : List Op) (m : Mem)
+    (hm : (run { cfg := cfg } ops).mem = some m) (hw : m.watchOnly = true) : m.locked = true :=
+  woLocked_run ops { cfg := cfg } (fun m hm => by cases hm) m hm hw
+
+/-- hence, on the current tree, EVERY reachable state that is locked OR watching-only holds no clear-text key -/
+theorem C05_wiped_histories_all (cfg : Cfg) (hfix : cfg.allFixed) (ops : List Op) (m : Mem)
+    (hm : (run { cfg := cfg } ops).mem = some m) (hl : m.locked = true ∨ m.watchOnly = true) : KeyClear m :=
+  C05_wiped_histories cfg hfix ops m hm (hl.elim id (C05_watchOnly_locked cfg ops m hm))
+
+/-! ### which passphrase is "current": `m.privPass` as a function of the history
+
+`create pub priv` and `reopen` install the database's passphrase (`openMem`), a successful private ChangePassphrase
+installs the new one (in memory at once, in the transaction's view of the database), and NO other operation —
+unlock, lock, public change, conversion, accounts, addresses, imports, queries, begin / commit (OnCommit closures) /
+rollback — touches it. -/
+
+theorem unlock_privPass (cfg : Cfg) (d : Disk) (m : Mem) (p : Nat) : (unlock cfg d m p).1.privPass = m.privPass := by
+  unfold unlock
+  split
+  · rfl
+  · split
+    · dsimp only; split <;> rfl
+    · split
+      · rfl
+      · dsimp only
+        have key := (scal_unlockScopes_gen cfg d (List.range nScopes) (unlockStart cfg m)).2.1
+        split
+        · rename_i m2 heq; rw [heq] at key; exact key
+        · rename_i m2 e _ heq; rw [heq] at key; exact key
+        · rename_i m2 heq; rw [heq] at key; exact key
+
+/-- every operation other than a private ChangePassphrase leaves the current passphrase alone -/
+theorem C05_currentPass_frame (s : State) (m : Mem) (hs : s.mem = some m) (op : Op)
+    (hop : ∀ o n, op ≠ .changePass o n true) (m' : Mem) (hm : (exec s m op).1.mem = some m') :
+    m'.privPass = m.privPass := by
+  by_cases hp : op.plain = true
+  · exact congrArg (·.2.2.2.2.2.2.1) (scal_exec s m hs op hp m' hm)
+  · cases op <;> simp only [Op.plain] at hp <;> simp only [exec] at hm
+    all_goals try (exact absurd trivial hp)
+    case create => rw [hs] at hm; cases hm; rfl
+    case reopen => rw [hs] at hm; cases hm; rfl
+    case begin => rw [hs] at hm; cases hm; rfl
+    case commit => rw [hs] at hm; cases hm; rfl
+    case rollback => rw [hs] at hm; cases hm; rfl
+    case unlock p => cases hm; exact unlock_privPass ..
+    case lock =>
+      cases hm; unfold lockOp; split
+      · rfl
+      · split <;> rfl
+    case changePass o n pr =>
+      cases hm
+      cases pr
+      · unfold changePass; simp only [Bool.false_and, Bool.false_eq_true, if_false]; split <;> rfl
+      · exact absurd rfl (hop o n)
+    case convertWO =>
+      cases hm; unfold convertWO; split
+      · rfl
+      · dsimp only; split <;> rfl
+
+/-- a private ChangePassphrase that succeeds makes the new passphrase current (memory and database view); one that
+fails changes neither -/
+theorem C05_currentPass_change (cfg : Cfg) (d : Disk) (m : Mem) (o n : Nat) :
+    ((changePass cfg d m o n true).2.2 = none →
+      (changePass cfg d m o n true).2.1.privPass = n ∧ (changePass cfg d m o n true).1.privPass = n) ∧
+    ((changePass cfg d m o n true).2.2 ≠ none →
+      (changePass cfg d m o n true).2.1 = m ∧ (changePass cfg d m o n true).1 = d) := by
+  unfold changePass
+  simp only [Bool.true_and, if_true]
+  repeat' split
+  all_goals simp
+
+/-- the OnCommit closures run by a commit do not touch it -/
+theorem C05_currentPass_commit (s : State) : (commitTx s).mem.map (·.privPass) = s.mem.map (·.privPass) := by
+  simp only [commitTx]
+  cases s.mem with
+  | none => rfl
+  | some m =>
+    simp only [Option.map]
+    exact congrArg some (congrArg (·.2.2.2.2.2.2.1) (scal_foldl_runPend s.cfg s.pend m))
+
+/-- `create` / `reopen` install the database's private passphrase -/
+theorem C05_currentPass_open (d : Disk) : (openMem d).privPass = d.privPass ∧ (createDisk pub priv).privPass = priv :=
+  ⟨rfl, rfl⟩
+
 /-! ## 4. `C05_change`: after a private passphrase change the new one works and the old one fails, immediately and
 after a restart -/
 
